@@ -682,7 +682,7 @@ pub fn child_main(sc: &dyn DynScenario, verif_seed: u64, tier: Tier, lo: u64, hi
                 writeln!(out, "H {i} {}", serde_json::to_string(&e).unwrap()).ok();
             }
         }
-        {
+        if sc.resumable() || (i - lo) % 64 == 63 {
             writeln!(out, "A {}", serde_json::to_string(&agg).unwrap()).ok();
             agg = Agg::default();
         }
@@ -733,7 +733,11 @@ pub fn classify_death(status: &std::process::ExitStatus, stderr_tail: &str, time
     )
 }
 
-const HANG_BUDGET_S: u64 = 30;
+const HANG_BUDGET_S: u64 = 60;
+
+/// hangs seen in this part; after a few the rest of the batch is abandoned (the violation is
+/// recorded; waiting a full hang budget for thousands of runs would only delay the report)
+static HANGS: AtomicU64 = AtomicU64::new(0);
 
 /// Parent side of one child covering [lo,hi); restarts after deaths.
 fn supervise_range(
@@ -750,6 +754,13 @@ fn supervise_range(
     let mut resume_from: usize = 0;
     let mut deaths_in_run = 0u32;
     while lo < hi {
+        if HANGS.load(Ordering::Relaxed) >= 3 {
+            let note = "batch abandoned after repeated hangs: some runs were not executed".to_string();
+            if !agg.notes.contains(&note) {
+                agg.notes.push(note);
+            }
+            return;
+        }
         let mut cmd = Command::new(&exe);
         cmd.arg("child")
             .arg(sc.name())
@@ -862,6 +873,9 @@ fn supervise_range(
         // the child died in run `in_progress`
         let r = in_progress.unwrap_or(lo);
         let v = classify_death(&status, &tail, timed_out.load(Ordering::Relaxed));
+        if v.invariant == "abort:hang" {
+            HANGS.fetch_add(1, Ordering::Relaxed);
+        }
         record_hit(hits, r, rng::run_seed(verif_seed, sc.name(), r), v);
         if r != lo {
             deaths_in_run = 0;
@@ -940,7 +954,7 @@ fn batch_supervised(
 /// Execute a script and return the violation class it produces, if any.
 /// For isolating scenarios this spawns `replay-inner` so that aborts are survivable.
 pub fn exec_script_class(sc: &dyn DynScenario, script: &ScriptJson, scratch: &std::path::Path) -> Result<Vec<Violation>, String> {
-    if !sc.isolate() {
+    if !sc.isolate() && std::env::var("VERIF_INPROCESS").is_ok() {
         let mut st = RunStats::default();
         let o = guarded(|| sc.exec_json(script, &mut st));
         let mut all: Vec<Violation> = st.extra.drain(..).collect();
@@ -1153,7 +1167,10 @@ pub fn run_part(property: &str, sc: &dyn DynScenario, tier: Tier, replay_dir: &s
     let t0 = std::time::Instant::now();
     let seed = verif_seed();
     let n = runs_override.unwrap_or_else(|| sc.runs(tier));
-    let (agg, hits, herr) = if sc.isolate() {
+    // Every batch runs in supervised child processes: a change to the library that makes a valid
+    // operation loop forever, overflow the stack or abort must be reported (as abort:hang, ...) and
+    // must not take the check down with it. VERIF_INPROCESS=1 selects the thread runner (debugging).
+    let (agg, hits, herr) = if sc.isolate() || std::env::var("VERIF_INPROCESS").is_err() {
         batch_supervised(sc, seed, tier, 0, n)
     } else {
         batch_threads(sc, seed, tier, 0, n)
@@ -1169,7 +1186,7 @@ pub fn run_part(property: &str, sc: &dyn DynScenario, tier: Tier, replay_dir: &s
             let mut m = Minimiser {
                 sc,
                 class: class.clone(),
-                budget: if class == "abort:hang" { 0 } else if sc.isolate() { 400 } else { 3000 },
+                budget: if class == "abort:hang" { 0 } else if sc.isolate() { 400 } else { 1200 },
                 scratch: replay_dir.to_path_buf(),
                 tests: 0,
             };
